@@ -25,6 +25,7 @@ import (
 	"github.com/lni/dragonboat/v4/internal/rsm"
 	"github.com/lni/dragonboat/v4/internal/server"
 	"github.com/lni/dragonboat/v4/internal/settings"
+	"github.com/lni/dragonboat/v4/internal/verifhook"
 	"github.com/lni/dragonboat/v4/raftio"
 	pb "github.com/lni/dragonboat/v4/raftpb"
 	sm "github.com/lni/dragonboat/v4/statemachine"
@@ -1340,9 +1341,11 @@ func (e *engine) processSteps(workerID uint64,
 		node.processLogQuery(ud.LogQueryResult)
 		node.processLeaderUpdate(ud.LeaderUpdate)
 	}
+	verifhook.Updates(verifhook.PreSave, nodeUpdates)
 	if err := e.logdb.SaveRaftState(nodeUpdates, workerID); err != nil {
 		return err
 	}
+	verifhook.Updates(verifhook.PostSave, nodeUpdates)
 	if err := e.onSnapshotSaved(nodeUpdates, nodes); err != nil {
 		return err
 	}
